@@ -85,7 +85,8 @@ def values_for(cls, rng):
         return [{'a': 1, 'b': 'x'}, {u'\xe9': u'☃', 'n': None, 't': True, 'f': 1.5},
                 dict(('k%d' % i, rand_scalar(rng)) for i in range(rng.randint(1, 8)))]
     if cls == 'SeqScalars':
-        return [[1, 2, 'x'], [None], [rand_scalar(rng) for _ in range(rng.randint(1, 10))]]
+        return [[1, 2, 'x'], [None], [rand_scalar(rng) for _ in range(rng.randint(1, 10))],
+                (1, 2, 'x'), ('only',)]          # a tuple is a sequence of scalars like a list
     if cls == 'SeqFlatMaps':
         return [[{'a': 1}, {'a': 2}], [{'a': 1, 'b': None}, {'c': 'x'}],
                 [dict(('k%d' % j, rand_scalar(rng)) for j in range(3)) for _ in range(rng.randint(1, 5))]]
@@ -106,7 +107,8 @@ def values_for(cls, rng):
     if cls == 'Tuple':
         return [(1, 2), ('a', (1, 2))]
     if cls == 'WithSet':
-        return [{'s': set([1, 2])}, [frozenset(['a'])], [{'a': 1}, set([2])]]
+        return [{'s': set([1, 2])}, [frozenset(['a'])], [{'a': 1}, set([2])],
+                {'mixed': set([1, 'a'])}, [set([None, 2]), frozenset([(1, 2), 'x'])]]       # members that cannot be ordered
     if cls == 'WithDatetime':
         return [{'d': datetime.datetime(2020, 1, 2, 3, 4, 5)}, [datetime.date(2020, 1, 1)], [{'a': 1}, datetime.date(2020, 1, 1), 5]]
     if cls == 'WithToDict':
